@@ -90,6 +90,7 @@ UserApply(id, args, ev) ==
        CASE m = "lin2"  -> PyAdd(PyMul(D10, args[1]), args[2])
          [] m = "lin3"  -> PyAdd(PyAdd(PyMul(Num("double", 100, 1), args[1]), PyMul(D10, args[2])), args[3])
          [] m = "inc"   -> PyAdd(args[1], Num("double", 1, 1))
+         [] m = "lit"   -> PyAdd(PyMul(Num("double", 1, 2), args[1]), PyMul(Num("double", 1, 1000), args[2]))
          [] m = "twice" -> PyMul(Num("double", 2, 1), args[1])
          [] m = "meth"  -> LET pt == Attr(ev, args[1], "pt") IN
                            IF Bad(pt) THEN pt ELSE PyAdd(PyMul(Num("double", 2, 1), pt), args[2])
